@@ -199,6 +199,17 @@ func (ss *segmentStack) Stats() *SegmentStackStats {
 	return rv
 }
 
+// statsWithChildren returns the stats for this segment stack plus those
+// of all its child collection stacks, so that mutations which only
+// touch child collections are accounted for as well.
+func (ss *segmentStack) statsWithChildren() *SegmentStackStats {
+	rv := ss.Stats()
+	for _, childSegStack := range ss.childSegStacks {
+		childSegStack.statsWithChildren().AddTo(rv)
+	}
+	return rv
+}
+
 // ChildCollectionNames returns an array of child collection name strings.
 func (ss *segmentStack) ChildCollectionNames() ([]string, error) {
 	var childCollections = make([]string, len(ss.childSegStacks))
